@@ -196,6 +196,12 @@ def map_set(I, m, key, value):
     kt = ctx.to_val(key).t
     has = ctx.field_array("$mhas")
     val = ctx.field_array("$mval")
+    # the key sequence (insertion order) lives in $len/$item of the map object: a new key is appended
+    had = z3.Select(z3.Select(has, idt), kt)
+    lens, items = ctx.field_array("$len"), ctx.field_array("$item")
+    n = z3.Select(lens, idt)
+    ctx.heap["$item"] = z3.Store(items, idt, z3.If(had, z3.Select(items, idt), z3.Store(z3.Select(items, idt), n, kt)))
+    ctx.heap["$len"] = z3.Store(lens, idt, z3.If(had, n, n + 1))
     ctx.heap["$mhas"] = z3.Store(has, idt, z3.Store(z3.Select(has, idt), kt, z3.BoolVal(True)))
     ctx.heap["$mval"] = z3.Store(val, idt, z3.Store(z3.Select(val, idt), kt, ctx.to_val(value).t))
 
@@ -1063,11 +1069,16 @@ def call_method(I, obj, name, args, kwargs):
             raise PyRaise(I.make_exception(ExternalRef("KeyError"), [args[0]]))
         if name == "keys":
             hasarr = z3.Select(ctx.field_array("$mhas"), ctx.ref_id(obj))
-            return SymSet(lambda k, a=hasarr: z3.Select(a, k), "keys")
+            ss = SymSet(lambda k, a=hasarr: z3.Select(a, k), "keys")
+            ss.map = obj
+            return ss
+        if name in ("values", "items"):
+            return MapIter(obj, name)
         if name == "clear":
             idt = ctx.ref_id(obj)
             has = ctx.field_array("$mhas")
             ctx.heap["$mhas"] = z3.Store(has, idt, z3.K(Z.Val, z3.BoolVal(False)))
+            ctx.heap["$len"] = z3.Store(ctx.field_array("$len"), idt, z3.IntVal(0))
             return None
     if isinstance(obj, SV) and isinstance(obj.ty, TSeq) and obj.ty.kind == "list":
         n = seq_len(I, obj)
@@ -1082,6 +1093,18 @@ def call_method(I, obj, name, args, kwargs):
             return None
         if name == "extend":
             conc = I.try_concrete_iter(args[0])
+            src = ctx.from_val(args[0]) if isinstance(args[0], SV) else args[0]
+            if conc is None and isinstance(src, SV) and isinstance(src.ty, TSeq):
+                # list.extend(seq): concatenation, items' = lambda k. k < n ? old[k] : seq[k-n]
+                idt = ctx.ref_id(obj)
+                m = seq_len(I, src)
+                items, lens = ctx.field_array("$item"), ctx.field_array("$len")
+                old_items = z3.Select(items, idt)
+                src_items = z3.Select(items, ctx.ref_id(src))
+                k = z3.Int("xk")
+                ctx.heap["$item"] = z3.Store(items, idt, z3.Lambda([k], z3.If(k < n, z3.Select(old_items, k), z3.Select(src_items, k - n))))
+                ctx.heap["$len"] = z3.Store(lens, idt, n + m)
+                return None
             if conc is None:
                 raise Unsupported("list.extend with a sequence of unknown length")
             for x in conc:
